@@ -29,6 +29,7 @@ using namespace C;
 
 const std::string Lexer::DiagnosticsReporter::ID_of_IncompatibleLanguageDialect = "Lexer-001";
 const std::string Lexer::DiagnosticsReporter::ID_of_IncompatibleLanguageExtension = "Lexer-002";
+const std::string Lexer::DiagnosticsReporter::ID_of_UnterminatedLiteral = "Lexer-003";
 
 void Lexer::DiagnosticsReporter::IncompatibleLanguageDialect(
         const std::string& feature,
@@ -51,6 +52,17 @@ void Lexer::DiagnosticsReporter::IncompatibleLanguageExtension(
                                     "Incompatible language extension",
                                     feature + " is available in " + to_string(expectedExt),
                                     DiagnosticSeverity::Warning,
+                                    DiagnosticCategory::Syntax);
+
+    lexer_->tree_->newDiagnostic(descriptor, lexer_->tree_->freeTokenSlot());
+}
+
+void Lexer::DiagnosticsReporter::UnterminatedLiteral(const std::string& literal)
+{
+    DiagnosticDescriptor descriptor(ID_of_UnterminatedLiteral,
+                                    "Unterminated literal",
+                                    "missing terminating quote of " + literal,
+                                    DiagnosticSeverity::Error,
                                     DiagnosticCategory::Syntax);
 
     lexer_->tree_->newDiagnostic(descriptor, lexer_->tree_->freeTokenSlot());
